@@ -81,3 +81,10 @@ package main
 //@   assert@before:RequestStop origin(deref(recv), "Run")
 //@   assert@return result == nil && called("Run") ==> called("RequestStop") && called("AwaitStop")
 //@   assert@return result == nil && called("Run") ==> trace == trace.ev(trace.ev(trace.ev(old(trace), "recv", sigint), "close", instance.stop), "recv", instance.closed)
+
+// C19 — gnark's own logger writes to standard output unless it is redirected: main must hand it the repository's
+// logger (standard error) before any command runs, on every path (prove's "exactly one JSON document on standard
+// output" assumes it).
+//@ func main
+//@   property C19
+//@   assert@before:Run called("Set")
